@@ -181,3 +181,8 @@ contract(PO + '.add_information_about_person[typed-store]', variant_of=PO + '.ad
          raises={'Exception': 'True'},
          modifies=['dict(self.cache._db)', 'dict(self.cache._db[code_of(session_info["name_id"])])'],
          clauses_from={'C19': ['C19-stored-for-the-subject-of-the-session', 'C19-stored-with-the-session-expiry', 'C19-other-subjects-untouched']})
+contract(CA + '.subjects', types={}, returns='List(%s)' % NID,
+         requires=['typed(self._db, "Dict(Str, Any)")'],
+         ensures=[('C19-one-identifier-per-stored-subject', 'fresh(result) and len(result) == len(self._db)')],
+         comps={0: {'elem': ['is_ref(res_i)'], 'type': NID}},
+         raises={}, modifies=[], clauses_from={'C19': ['C19-one-identifier-per-stored-subject']})
